@@ -239,6 +239,7 @@ func TestVerifSCTrace(t *testing.T) {
 		{"a", "b", ".", ",", "(", ")", "*", "+", "?", "[", "]", "\\", "$", "^", "|", "{", "}"},
 		{"ünï", "cödé", "日本語", "—", "«x»", "naïve", "ß"},
 		{"ok", "bad\xff", "\xc3", "fine", "x\xf0\x9f"},
+		{"row"}, {"to", "be"}, {"-", "x"}, // repetitive values: every window of the value looks like every other
 	}
 	ctxWords := []string{"zzqx", "qqzv", "vvkq", "xzzq"}
 	for n := 1; n <= cases; n++ {
@@ -256,6 +257,9 @@ func TestVerifSCTrace(t *testing.T) {
 				ws = append(ws, vocab[rng.Intn(len(vocab))])
 			}
 			vals = append(vals, strings.Join(ws, " ")+fmt.Sprintf(" uniq%c", 'a'+k)) // a unique last word: no value occurs inside another
+		}
+		if bare := rng.Intn(2) == 0; bare && nvals == 1 {
+			vals[0] = strings.TrimSuffix(vals[0], " uniqa") // a single value needs no marker
 		}
 		flatten := rng.Intn(2) == 0
 		thr := []float64{0.5, 0.8, 0.95, 1.0}[rng.Intn(4)]
@@ -309,6 +313,11 @@ func TestVerifSCTrace(t *testing.T) {
 		rec.mm(c, cid, sb.String(), plants, "")
 		for k, v := range vals {
 			rec.nm(c, cid, v, []string{fmt.Sprintf("k%d", k+1)}, "")
+		}
+		// the unknown is exactly a known value, nothing around it
+		for k, v := range vals {
+			nv := c.normalize(v)
+			rec.mm(c, cid, nv, []map[string]interface{}{{"name": fmt.Sprintf("k%d", k+1), "off": 0, "ext": len(nv)}}, "")
 		}
 		// register one more value after the first queries, then look for all of them again
 		lateVal := "lateword one two three uniqlate"
